@@ -842,7 +842,7 @@ def run_layer2(ctx):
                     if w[0] == "sess":
                         sc.sessions[int(w[1])] = int(w[2])
                 scns.append(sc)
-        scns += gen_scenarios(ctx, 160 if quick else 2500, 40 if quick else 500)
+        scns += gen_scenarios(ctx, 260 if quick else 2500, 60 if quick else 500)
     t0 = time.time()
     rc, impl, log = run_impl(ctx, scns)
     t_impl = time.time() - t0
@@ -867,7 +867,7 @@ def run_layer2(ctx):
     for sc, law, k, detail in fails:
         seen.setdefault(law, []).append((sc, k, detail))
     for law, lst in seen.items():
-        sc, k, detail = min(lst, key=lambda x: (x[1], len(x[0].ops)))
+        sc, k, detail = min(lst, key=lambda x: (x[0].id.startswith("d"), x[1], len(x[0].ops)))   # a request history before a direct call
         small = sc.clone(sc.ops[:k + 1])
         small.sessions = sc.sessions
         if not ctx.replay and law not in known:
@@ -943,7 +943,8 @@ def run_layer2(ctx):
         "sharer_table_snapshots": stats.get("table_snapshots", 0),
         "offline_set_requests_excluded": stats.get("offline_set", 0),
         "model_correspondence_items": len(items) + len(by_runner["c05"]), "correspondence_mismatches": len(mism),
-        "monitor_failures": len(fails), "impl_wall_s": round(t_impl, 1),
+        "monitor_failures": len([f for f in fails if f[1] not in known]),
+        "known_finding_failures": len([f for f in fails if f[1] in known]), "impl_wall_s": round(t_impl, 1),
         "sample": {"head": scns[-1].head, "ops": scns[-1].ops[:12]} if scns else {},
         "trusted_base": [
             "harness/overlay/server/zz_verif_c05x_test.go: attaches a multiplexing session to the master topic (as cluster.go does for a remote proxy), feeds what it receives to proxyMasterResponse of a proxy Topic whose table was copied from the master, calls notifySubChange directly in the 'notify' scenarios",
